@@ -4,7 +4,7 @@
    call (spec).  Known classes (KNOWN_FINDINGS.txt): 1 = a failed annotate leaves new text
    selections behind, 2 = a failed annotate / insert_data leaves datasets, keys or data
    behind, 3 = both, 4 = a failed batch keeps its earlier elements (possibly with 1-3).
-   operations as in Run/StoreRun.v plus (12 (id target datas) ...) = annotate_from_iter and
+   operations as in Run/StoreRun.v plus (12 (id target datas) ...) = annotate_from_iter, (15 ...) = the same batch through annotate_from_file, and
    (13 id (dbuild ...)) = add_dataset with data items (the set reference of the builders is ignored). *)
 From Coq Require Import List ZArith Bool Arith.
 Import ListNotations.
@@ -70,7 +70,7 @@ Fixpoint run_ops (s : store) (xs : list sx) : list sx :=
   | [] => []
   | x :: xs' =>
       let '(s', r, done) :=
-        if Z.eqb (sx_Z (sx_nth 0 x)) 12
+        if Z.eqb (sx_Z (sx_nth 0 x)) 12 || Z.eqb (sx_Z (sx_nth 0 x)) 15
         then annotate_batch s (map abuild_of_sx (tl (sx_list x)))
         else if Z.eqb (sx_Z (sx_nth 0 x)) 13
         then let '(s1, r1) := add_set_with s (sx_nat (sx_nth 1 x)) (map dbuild_of_sx (sx_list (sx_nth 2 x))) in (s1, r1, 0)
